@@ -73,9 +73,6 @@ def double_clone(x):
 def classify_producer(x, case, witness):
     """stable key of a violated producer clause"""
     i, oid, ps = witness
-    if not ps and len(case["nets"]) > 1 and oid not in first_worker_oids(x, case) \
-            and x["nodes"][i]["worker"] != case["nets"][0].replace("localhost.", ""):
-        return "missing-producer:vm-variant-excluded-by-first-worker"
     if not ps and case.get("suite"):
         nd = x["nodes"][i]
         o = [o for o in nd["objects"] if o["oid"] == oid][0]
@@ -88,7 +85,7 @@ def classify_producer(x, case, witness):
         return "several-producers"
     if not any(o["oid"] == oid for o in x["nodes"][ps[0]]["objects"]):
         # the one parent does not even have the object: the dependency was resolved for another object of the test
-        return "wrong-object-after-narrowing"
+        return "producer-of-another-object"
     return "wrong-producer"
 
 
@@ -118,7 +115,7 @@ def judge_graph(ctx, case, graph, x, lean_line, origin="real"):
         for w in ws[:3]:
             key = clause if clause != "producer" else classify_producer(x, case, w)
             if clause == "edge-object" and not any(o["oid"] == gl._edge_oid(w[2]) for o in x["nodes"][w[1]]["objects"]):
-                key = "wrong-object-after-narrowing"
+                key = "producer-of-another-object"
             if double_clone(x):
                 key = "double-clone"
             if key == "suite-not-wf":
@@ -135,7 +132,6 @@ def judge_graph(ctx, case, graph, x, lean_line, origin="real"):
                         f"for object {oid} but has parents {[x['nodes'][p]['id'] for p in ps]} for it "
                         f"(expected exactly one producer of worker {nd['worker']})")
             ctx.violate(key, what, full)
-            ctx.count("violation." + key)
     for (nid, err) in x["invalid"]:
         ctx.violate("validate-rejects", f"TestNode.validate() rejects {nid}: {err}", full)
     for (nid, err) in getattr(graph, "_verif_invalid", []) if graph is not None else []:
@@ -279,7 +275,7 @@ def gen_cases(rng, n_suites, per_suite, size="small", lazy_share=0.3, max_worker
             if rng.random() < lazy_share:
                 case["mode"] = "lazy"
                 # a random interleaving of (flat node, worker) expansions; sometimes a proper prefix only
-                order = [(fi, w.replace("localhost.", "")) for fi in range(12) for w in sel["nets"]]
+                order = [(fi, w.replace("localhost.", "")) for fi in range(gl.MAX_FLATS) for w in sel["nets"]]
                 rng.shuffle(order)
                 if rng.random() < 0.3:
                     order = order[:max(1, len(order) // 2)]
@@ -310,11 +306,11 @@ def correspondence(ctx):
         n_suites, per_suite, n_shipped = (150, 3, len(SHIPPED_CASES)) if thorough else (16, 2, 2)
         budget = 1500 if thorough else 150
         cases = gen_cases(rng, n_suites, per_suite, "large" if thorough else "small")
-        for i in range(0, len(cases), 8):
+        for i, case in enumerate(cases):
             if ctx.remaining(budget * 0.75) < 0:
                 ctx.notes.append(f"time budget: stopped after {i} of {len(cases)} generated-suite cases")
                 break
-            run_cases(ctx, cases[i:i + 8])
+            gl.run_attributed(ctx, case, lambda c, k: run_cases(c, [k]))
         ship = list(range(len(SHIPPED_CASES)))
         rng.shuffle(ship)
         if not thorough:
@@ -323,7 +319,7 @@ def correspondence(ctx):
             if ctx.remaining(budget) < 0:
                 ctx.notes.append("time budget: shipped-suite cases cut short")
                 break
-            run_cases(ctx, [shipped_case(i)], n_mut=3)
+            gl.run_attributed(ctx, shipped_case(i), lambda c, k: run_cases(c, [k], n_mut=3))
     finally:
         gl.cleanup()
 
